@@ -5,12 +5,57 @@ from ..seqx import viol, explore, digest
 from .. import seqx
 
 
+BEHAVIOURS = ["local_keep", "local_drop", "remote_keep", "remote_drop", "merged_drop", "merged_keep",
+              "none", "raises", "nontuple", "triple", "nonfile"]
+MERGED = b"MERGED"
+
+
+def resolver(w, f1, f2):
+    import io
+    b = w.opts["resolver"]
+    rec = []
+    for f in (f1, f2):
+        f.seek(0)
+        rec.append((f.side, f.path, f.read()))
+        f.seek(0)
+    w.resolver_calls.append(rec)
+    loc = f1 if f1.side == 0 else f2
+    rem = f1 if f1.side == 1 else f2
+    if b == "local_keep":
+        return (loc, True)
+    if b == "local_drop":
+        return (loc, False)
+    if b == "remote_keep":
+        return (rem, True)
+    if b == "remote_drop":
+        return (rem, False)
+    if b == "merged_drop":
+        return (io.BytesIO(MERGED), False)
+    if b == "merged_keep":
+        return (io.BytesIO(MERGED), True)
+    if b == "none":
+        return None
+    if b == "raises":
+        raise RuntimeError("resolver blew up")
+    if b == "nontuple":
+        return loc
+    if b == "triple":
+        return (loc, True, 1)
+    if b == "nonfile":
+        return ("not a file", True)
+    raise ValueError(b)
+
+
 class Driver:
     """default driver: C01 oracle (convergence at quiet states)"""
     prop = "C01"
 
     def make_world(self, job):
-        return World(job)
+        w = World(job)
+        if w.opts.get("resolver") is not None:
+            w.resolver_calls = []
+            w.hooks["resolver"] = resolver
+        return w
 
     def on_step(self, w, a, pre):
         return []
@@ -30,10 +75,18 @@ class Driver:
         return self.observe(w), vs
 
 
-def run_explore(drv, job):
+def run_explore(drv, job, liveness_fallback=False):
     mode = job.get("mode") or {}
     res = explore(drv, job, k=mode.get("k"), cap=mode.get("cap", 4000), audit_every=mode.get("audit", 0),
                   max_depth=mode.get("depth", 120))
+    if liveness_fallback and res.capped and mode.get("k") is None:
+        # the full graph is incomplete, so the fair-schedule walk could not be done on it: decide liveness on the
+        # concrete prompt schedule instead (k=0, every execution runs until quiet or H steps)
+        res0 = explore(drv, job, k=0, cap=4000, max_depth=400)
+        for v in res0.violations:
+            if v["kind"] == "noquiesce":
+                res.add_violation(v, v["hist"])
+        res.transitions += res0.transitions
     out = res.summary()
     out["violations"] = res.violations
     out["outcomes"] = list(res.outcomes.keys())[:50]
